@@ -150,21 +150,22 @@ theorem accepts_append {a b : List Micro} (ha : accepts a = true) (hb : accepts 
   simp only [accepts, beq_iff_eq] at *
   rw [runQ_append, ha, hb]
 
-theorem methods_disciplined : ((LockCfg.locking ++ LockCfg.lockfree).all fun m => disciplined m.2) = true := by decide
+theorem methods_disciplined : ((LockCfg.locking ++ LockCfg.lockfree ++ LockCfg.shellCtor).all fun m => disciplined m.2) = true := by decide
 
 theorem helpers_disciplined : (LockCfg.helpers.all fun m => disciplinedHelper m.2) = true := by decide
 
 theorem store_method_paths_accepted :
-    ∀ m ∈ LockCfg.locking ++ LockCfg.lockfree, ∀ tr o, Exec m.2 tr o → accepts tr = true := by
+    ∀ m ∈ LockCfg.locking ++ LockCfg.lockfree ++ LockCfg.shellCtor, ∀ tr o, Exec m.2 tr o → accepts tr = true := by
   intro m hm tr o he
   have := methods_disciplined
   simp only [List.all_eq_true] at this
   exact disciplined_sound m.2 (this m hm) he
 
-/-- a thread that only calls public store methods: its program is a concatenation of method paths -/
+/-- a thread that only constructs importers / graph objects (the shells' singleton creation guard) and calls
+public store methods: its program is a concatenation of paths of the generated skeletons -/
 inductive StoreProg : List Micro → Prop where
   | done : StoreProg []
-  | call {m tr o p} : m ∈ LockCfg.locking ++ LockCfg.lockfree → Exec m.2 tr o → StoreProg p → StoreProg (tr ++ p)
+  | call {m tr o p} : m ∈ LockCfg.locking ++ LockCfg.lockfree ++ LockCfg.shellCtor → Exec m.2 tr o → StoreProg p → StoreProg (tr ++ p)
 
 theorem storeProg_accepts {p : List Micro} (h : StoreProg p) : accepts p = true := by
   induction h with
@@ -197,6 +198,12 @@ replaces the earlier node) contains every node that was inserted and not deleted
 theorem no_node_lost : dictView (run sched (init progs)).sh.nodes = (run sched (init progs)).sh.nodes := by
   obtain ⟨qs, h⟩ := reachable_inv hacc sched
   exact dictView_eq_of_nodup _ h.nodup
+
+/-- **store_never_replaced**: the store object and its lock are never swapped for fresh ones — the shared state
+of the step relation keeps its identity (`gen`) under every schedule -/
+theorem store_never_replaced : (run sched (init progs)).sh.gen = 0 := by
+  have := (Inv.init hacc).run_gen sched
+  simpa [Sched.init, initShared] using this
 
 theorem no_release_error : (run sched (init progs)).relErr = false := by
   obtain ⟨qs, h⟩ := reachable_inv hacc sched
@@ -279,12 +286,26 @@ theorem store_threads_safe (progs : List (List Micro)) (h : ∀ p ∈ progs, Sto
     ((run sched (init progs)).sh.nodes.map Node.key).Nodup ∧
     dictView (run sched (init progs)).sh.nodes = (run sched (init progs)).sh.nodes ∧
     (run sched (init progs)).relErr = false ∧
+    (run sched (init progs)).sh.gen = 0 ∧
     (finished (run sched (init progs)) → (run sched (init progs)).lock = none) :=
   have hacc : ∀ p ∈ progs, accepts p = true := fun p hp => storeProg_accepts (h p hp)
   ⟨unique_ids progs hacc sched, no_node_lost progs hacc sched, no_release_error progs hacc sched,
-   lock_free_at_end progs hacc sched⟩
+   store_never_replaced progs hacc sched, lock_free_at_end progs hacc sched⟩
+
+/-- the creation guard of each shell can only fire when there is no store yet: it tests `is None`, or the store
+class cannot be falsy (no `__len__` / `__bool__`) -/
+theorem singleton_guard_stable : (LockCfg.singletons.all fun s => s.2.1 || !s.2.2) = true := by decide
 
 /-! non-vacuity of the hypotheses, and what goes wrong without them -/
+
+/-- a truthiness guard on a store class that defines `__len__`: while thread 0 is inside its first import (store
+still empty) thread 1 constructs an importer, which replaces the store (fresh counters, fresh lock object) -/
+theorem weak_guard_counterexample :
+    let progs : List (List Micro) := [[.ctor true, .acq, .rdg, .read 0, .bump 0 2, .add 0 1 2, .rel], [.ctor true, .acq, .rdg, .rel]]
+    let s := run [0, 0, 0, 0, 1] (init progs)
+    s.sh.gen = 2 ∧ (progs.all accepts) = false ∧ accepts [.ctor false, .acq, .rdg, .rel] = true := by
+  decide
+
 
 example : accepts [.acq, .read 0, .add 0 1 1, .bump 0 1, .rel, .acq, .rdg, .delSpace 3, .addFrom 3 3 1 2, .setCtr 3 3, .rel] = true := by decide
 
